@@ -2,6 +2,7 @@ import HappyProofs.C15.Crash
 import HappyProofs.C15.Survive
 import HappyProofs.C15.Judge
 import HappyProofs.C15.Ack
+import HappyProofs.C15.Phases
 import HappyProofs.C14.LsmFinal
 /-!
 # C15 — property theorems (WAL + crash recovery)
@@ -183,6 +184,84 @@ theorem crash_spec_ack_at_every_index (cfg : Cfg) (p : Policy) (nkeys : Nat) (op
   crash_spec_ack cfg p nkeys ops oracle (sched.take i) every hw h2 hd (inOrder_take ho i)
     (syncsInOrderB_take sched _ hs i) he
 
+/-! ### sequences of crashes (`runPhases`, `judgePhase`; state-level parts in `Phases.lean`) -/
+
+/-- `no_invention` at every crash of every sequence of crashes, from any start system: a value read after
+    `crash(); recover_from_crash()` is the cell of a synced entry of the log at that crash or is held by an
+    SSTable level at that crash -/
+theorem phase_no_invention (cfg : Cfg) (y0 : Sys) (ps : List (List Nat)) :
+    ∀ o ∈ runPhases cfg y0 ps, ∀ k c, o.s1.read k = some c →
+      (∃ e ∈ o.y.st.wal, e.seq ≤ o.y.st.synced ∧ e.key = k ∧ e.cell = c) ∨ lookLevels k o.y.st.levels = some c := by
+  intro o ho k c h
+  obtain ⟨y, sched, rfl⟩ := mem_runPhases ho
+  exact no_invention _ k c h
+
+theorem baselineRecs_replicate_none (n : Nat) : baselineRecs (List.replicate n none) = [] := by
+  have key : ∀ (n i : Nat) (f : Option Nat × Nat → Option WRec), (∀ k, f (none, k) = none) →
+      ((List.replicate n (none : Option Nat)).zipIdx i).filterMap f = [] := by
+    intro n
+    induction n with
+    | zero => intro i f _; rfl
+    | succ n ih =>
+      intro i f hf
+      rw [List.replicate_succ, List.zipIdx_cons, List.filterMap_cons, hf]
+      exact ih _ f hf
+  exact key n 0 _ (fun _ => rfl)
+
+/-- with no earlier phase (`stale = []`, baseline all `none`) the phase judge is the single-crash judge -/
+theorem judgePhase_first (every : Bool) (n : Nat) (ws : List WRec) (syncDone : List Nat) (synced : Nat)
+    (r1 r2 r3 : List (Option Nat)) :
+    judgePhase every (List.replicate n none) [] ws syncDone synced r1 r2 r3 =
+      judgeCrashAck every ws syncDone synced r1 r2 r3 := by
+  unfold judgePhase
+  split
+  · rename_i x k heq
+    have hp := List.find?_some heq
+    cases x <;> simp at hp
+  · rw [baselineRecs_replicate_none, List.nil_append]
+
+/-- the first phase of a multi-crash run satisfies the whole phase judge (`durable_survive`, `no_resurrection`,
+    `no_invention`, `recover_idempotent`, acknowledgement-based durability): every workload, sync policy, schedule -/
+theorem multi_crash_first_phase (cfg : Cfg) (p : Policy) (nkeys : Nat) (ops : List (Nat × OKind)) (oracle : List Bool)
+    (sched : List Nat) (every : Bool) (hw : cfg.wal = some p) (h2 : 2 ≤ cfg.maxLevels) (hd : DistinctPuts ops)
+    (ho : InOrder cfg (sysOf cfg oracle ops) sched) (hs : syncsInOrderB cfg (sysOf cfg oracle ops) sched = true)
+    (he : every = true → cfg.wal = some .every) :
+    judgePhase every (List.replicate nkeys none) [] (wObsOf ops (phaseOut cfg (sysOf cfg oracle ops) sched).y)
+      (phaseOut cfg (sysOf cfg oracle ops) sched).done (phaseOut cfg (sysOf cfg oracle ops) sched).y.st.synced
+      (readsOf nkeys (phaseOut cfg (sysOf cfg oracle ops) sched).s1)
+      (readsOf nkeys (phaseOut cfg (sysOf cfg oracle ops) sched).s2)
+      (readsOf nkeys (phaseOut cfg (sysOf cfg oracle ops) sched).s3) = none := by
+  rw [judgePhase_first, phaseOut_s1, phaseOut_s2, phaseOut_s3, phaseOut_done, phaseOut_y]
+  exact crash_spec_ack cfg p nkeys ops oracle sched every hw h2 hd ho hs he
+
+theorem obsOf_nil_prev (ops : List (Nat × OKind)) (nkeys : Nat) (o : PhaseOut) :
+    (obsOf ops nkeys [] o).ws = wObsOf ops o.y := by
+  simp [obsOf]
+
+/-- the first element of `runPhases` is that phase, so the first step of `judgePhases` on the model's own
+    observations of any multi-crash run passes -/
+theorem multi_crash_first_of_runPhases (cfg : Cfg) (p : Policy) (nkeys : Nat) (ops : List (Nat × OKind))
+    (oracle : List Bool) (sched : List Nat) (rest : List (List Nat)) (every : Bool) (hw : cfg.wal = some p)
+    (h2 : 2 ≤ cfg.maxLevels) (hd : DistinctPuts ops) (ho : InOrder cfg (sysOf cfg oracle ops) sched)
+    (hs : syncsInOrderB cfg (sysOf cfg oracle ops) sched = true) (he : every = true → cfg.wal = some .every) :
+    (runPhases cfg (sysOf cfg oracle ops) (sched :: rest)).head? = some (phaseOut cfg (sysOf cfg oracle ops) sched) ∧
+    judgePhases every nkeys (List.replicate nkeys none) [] 0
+      ((obsOfPhases ops nkeys [] (runPhases cfg (sysOf cfg oracle ops) (sched :: rest))).take 1) = none := by
+  refine ⟨rfl, ?_⟩
+  have hj := multi_crash_first_phase cfg p nkeys ops oracle sched every hw h2 hd ho hs he
+  have hlen : (readsOf nkeys (phaseOut cfg (sysOf cfg oracle ops) sched).s1).length = nkeys := by
+    simp [readsOf]
+  rw [← obsOf_nil_prev ops nkeys] at hj
+  simp only [runPhases, obsOfPhases, List.take_succ_cons, List.take_zero, judgePhases]
+  rw [if_neg (by simpa [obsOf] using hlen)]
+  have hj' : judgePhase every (List.replicate nkeys none) [] (obsOf ops nkeys [] (phaseOut cfg (sysOf cfg oracle ops) sched)).ws
+      (obsOf ops nkeys [] (phaseOut cfg (sysOf cfg oracle ops) sched)).syncDone
+      (obsOf ops nkeys [] (phaseOut cfg (sysOf cfg oracle ops) sched)).synced
+      (obsOf ops nkeys [] (phaseOut cfg (sysOf cfg oracle ops) sched)).r1
+      (obsOf ops nkeys [] (phaseOut cfg (sysOf cfg oracle ops) sched)).r2
+      (obsOf ops nkeys [] (phaseOut cfg (sysOf cfg oracle ops) sched)).r3 = none := hj
+  rw [hj']
+
 /-! ### non-vacuity -/
 
 def exSt : St :=
@@ -244,5 +323,50 @@ example : syncsInOrderB exCfg (sysOf exCfg [] exOps2) [1, 2, 1, 2, 2, 1] = false
     ackBound true (wObsOf exOps2 ((sysOf exCfg [] exOps2).run exCfg [1, 2, 1, 2, 2, 1]))
       (syncDoneRun exCfg (sysOf exCfg [] exOps2) [] [1, 2, 1, 2, 2, 1]).2 = 2 := by
   refine ⟨by decide, by decide, by decide⟩
+
+/-- non-vacuity for sequences of crashes: batch sync policy, two phases.  Phase 1 completes operations 1 and 2
+    (synced, flushed, log truncated) and runs operation 3 for two segments: its entry (sequence number 3) is
+    appended but never synced, the crash drops it and `next_sequence` stays 4 — the log has a gap, and a crash
+    in phase 2 leaves entries 4, 5.  Phase 2 runs operations 1001–1003 (a second flush and a compaction). -/
+def mcCfg : Cfg := { memSize := 2, maxLevels := 2, strat := .sizeTiered 2, wal := some (.batch 2) }
+def mcOps : List (Nat × OKind) :=
+  [(1, .put 0 7), (2, .put 1 8), (3, .put 0 9), (1001, .put 1 11), (1002, .put 2 12), (1003, .put 0 13)]
+def mcSched1 : List Nat := [1, 1, 1, 2, 2, 2, 2, 2, 3, 3]
+def mcSched2 : List Nat := [1001, 1001, 1001, 1002, 1002, 1002, 1002, 1002, 1002, 1003, 1003, 1003]
+def mcO1 : PhaseOut := phaseOut mcCfg (sysOf mcCfg [] mcOps) mcSched1
+def mcObs : List PhaseObs := obsOfPhases mcOps 3 [] (runPhases mcCfg (sysOf mcCfg [] mcOps) [mcSched1, mcSched2])
+
+example : mcO1.y.st.wal.map (·.seq) = [3] ∧ mcO1.y.st.synced = 2 ∧ mcO1.y.st.nextSeq = 4 ∧
+    mcO1.s3.wal.map (·.seq) = [] ∧ mcO1.s3.nextSeq = 4 ∧ readsOf 3 mcO1.s3 = [some 7, some 8, none] ∧
+    (phaseOut mcCfg mcO1.next (mcSched2.take 6)).s3.wal.map (·.seq) = [4, 5] ∧
+    (phaseOut mcCfg mcO1.next (mcSched2.take 6)).s3.nextSeq = 6 := by
+  refine ⟨by decide, by decide, by decide, by decide, by decide, by decide, by decide, by decide⟩
+
+/-- the hypotheses of `multi_crash_spec_full` hold on this run (in their Boolean forms) -/
+example : DistinctPuts mcOps ∧
+    (phaseStarts mcCfg (sysOf mcCfg [] mcOps) [mcSched1, mcSched2]).all (fun ys =>
+      inOrderB mcCfg ys.1 ys.2 && syncsInOrderB mcCfg ys.1 ys.2 &&
+      ys.1.frames.all fun f => !ys.2.contains f.id || f.b.isNone) = true := by
+  refine ⟨⟨by decide, by decide⟩, by decide⟩
+
+example : mcObs.map (fun p => (p.ws.map fun w => (w.id, w.seq, w.e.isSome), p.syncDone, p.synced, p.r1)) =
+    [([(1, 1, true), (2, 2, true), (3, 3, false)], [2], 2, [some 7, some 8, none]),
+     ([(1001, 4, true), (1002, 5, true), (1003, 6, true)], [1002], 5, [some 7, some 11, some 12])] := by decide
+
+/-- the Spec accepts the model on this lossy-first-crash run -/
+example : judgePhases false 3 (List.replicate 3 none) [] 0 mcObs = none := by decide
+
+/-- … and is not idle on it: the value lost at the first crash coming back after the second (9), the baseline
+    value of key 0 lost, or the baseline value of key 1 back although a durable write replaced it, are rejected;
+    the unsynced last write (13) may or may not survive -/
+def mcTamper (r : List (Option Nat)) : List PhaseObs :=
+  mcObs.take 1 ++ (mcObs.drop 1).map fun p => { p with r1 := r, r2 := r, r3 := r }
+
+example : judgePhases false 3 (List.replicate 3 none) [] 0 (mcTamper [some 7, some 11, some 12]) = none ∧
+    (judgePhases false 3 (List.replicate 3 none) [] 0 (mcTamper [some 9, some 11, some 12])).isSome = true ∧
+    (judgePhases false 3 (List.replicate 3 none) [] 0 (mcTamper [none, some 11, some 12])).isSome = true ∧
+    judgePhases false 3 (List.replicate 3 none) [] 0 (mcTamper [some 13, some 11, some 12]) = none ∧
+    (judgePhases false 3 (List.replicate 3 none) [] 0 (mcTamper [some 7, some 8, some 12])).isSome = true := by
+  refine ⟨by decide, by decide, by decide, by decide, by decide⟩
 
 end HappyModel.C15
